@@ -150,6 +150,24 @@ func genNumber(r *rand.Rand, c *genCfg, sb *strings.Builder) {
 			sb.WriteByte('-')
 		}
 		sb.WriteByte('0')
+	case 4:
+		// integers around the limits of the integer types and of exact float64 integers, either
+		// sign: where conversions take a different route
+		if r.IntN(2) == 0 {
+			sb.WriteByte('-')
+		}
+		switch r.IntN(3) {
+		case 0: // a magnitude in [2^63, 2^64)
+			sb.WriteString(strconv.FormatUint(r.Uint64()|1<<63, 10))
+		case 1: // 2^64 - 3 .. 2^64 + 6
+			if d := r.IntN(10); d < 3 {
+				sb.WriteString(strconv.FormatUint(math.MaxUint64-uint64(2-d), 10))
+			} else {
+				sb.WriteString("1844674407370955161" + strconv.Itoa(d+3))
+			}
+		default:
+			sb.WriteString(strconv.FormatUint([]uint64{1 << 63, 1 << 53, 1 << 31, 1 << 32, 1 << 24}[r.IntN(5)]+uint64(r.IntN(5))-2, 10))
+		}
 	case 3:
 		if c.bigNums {
 			if r.IntN(2) == 0 {
